@@ -423,7 +423,10 @@ func checkMain(propID, tier string) int {
 			continue
 		}
 		confirmed := v
-		if v.Kind != "data-race" && v.Kind != "hang" && v.Idx >= 0 && !p.Race && v.Kind != "os-file-access-bypassing-loaders" {
+		if sd, _ := v.Detail["schedule_dependent"].(bool); sd {
+			// observed in a workload that depends on how goroutines interleave (said so by the case itself): reported as
+			// observed, like race reports; a re-execution that happens to interleave differently refutes nothing
+		} else if v.Kind != "data-race" && v.Kind != "hang" && v.Idx >= 0 && !p.Race && v.Kind != "os-file-access-bypassing-loaders" {
 			// (violations seen in the race-detector workloads depend on schedule and process history; they are
 			// reported as observed, like race reports, instead of being re-executed alone)
 			rv, died, hung, note := runSingle(p, tier, seed, v.Idx, dir, 150*time.Second)
@@ -484,7 +487,7 @@ func checkMain(propID, tier string) int {
 	cov := D{
 		"evaluations":         evaluations,
 		"distinct_nontrivial": distinct,
-		"rule":                p.Rule + ruleAdditions[p.ID],
+		"rule":                p.Rule + ruleAdditions[p.ID] + round11Rule(p.ID),
 		"samples":             samples,
 		"cases":               cases,
 		"cases_planned":       total,
